@@ -69,7 +69,9 @@ def generate(rng, i, tier):
         elif k == "add_torn":
             # the copy into the store dies part-way (disk full): the call raises; the caller usually tries again at once -
             # sometimes after the source has been rewritten with other bytes of the same length
-            opsl.append({"op": "add_torn", "name": rng.choice(NAMES), "src": rng.choice(srcs), "cut": rng.choice([0.0, 0.5, 0.5, 1.0]), "retry": rng.random() < 0.75, "edit": rng.choice([None, None, "c0", "c1", "c2"])})
+            opsl.append({"op": "add_torn", "name": rng.choice(NAMES), "src": rng.choice(srcs), "cut": rng.choice([0.0, 0.5, 0.5, 1.0]), "retry": rng.random() < 0.75, "edit": rng.choice([None, None, "c0", "c1", "c2"]),
+                         # the fault may persist for the whole call (every copy the library attempts is torn)
+                         "times": rng.choice([1, 1, 99])})
         elif k == "add_iofault":
             # the at-th file-system call the registration makes inside the named-files area fails (EIO); the caller retries
             opsl.append({"op": "add_iofault", "name": rng.choice(NAMES), "src": rng.choice(srcs), "at": rng.randint(1, 14)})
@@ -84,7 +86,7 @@ def generate(rng, i, tier):
             opsl.append({"op": "swap"})
         else:
             opsl.append({"op": "restart"})
-    return {"seed": rng.getrandbits(32), "listdir_salt": rng.choice([None, rng.getrandbits(16), rng.getrandbits(16)]), "ops": opsl, "clock": rng.choice(["frozen", "frozen", "tick", "jumps"]), "log": rng.choice(["error"] * 5 + ["debug", "info"])}
+    return {"seed": rng.getrandbits(32), "listdir_salt": rng.choice([None, rng.getrandbits(16), rng.getrandbits(16)]), "ops": opsl, "clock": rng.choice(["frozen", "frozen", "tick", "jumps"]), "log": rng.choice(["error"] * 5 + ["debug", "info"]), "inputs_prefix": rng.choice([""] * 4 + ["./", ".//"])}
 
 
 def reductions(sc):
@@ -96,6 +98,8 @@ def reductions(sc):
         yield with_(sc, clock="frozen")
     if sc.get("log", "error") != "error":
         yield with_(sc, log="error")
+    if sc.get("inputs_prefix"):
+        yield with_(sc, inputs_prefix="")
     for j, op in enumerate(sc["ops"]):
         if op["op"] == "write" and op["content"] != "c0":
             c = [dict(o) for o in sc["ops"]]
@@ -113,8 +117,9 @@ class _torn_copies:
 
     NAMES = ("copy", "copy2", "copyfile")
 
-    def __init__(self, cut):
+    def __init__(self, cut, times=1):
         self.cut = cut
+        self.times = times
         self.state = {"fired": 0}
 
     def __enter__(self):
@@ -124,10 +129,11 @@ class _torn_copies:
         self.saved = {n: getattr(shutil, n) for n in self.NAMES}
         st = self.state
         cut = self.cut
+        times = self.times
 
         def make(real):
             def torn(src, dst, *a, **kw):
-                if st["fired"] or not os.path.isfile(src):
+                if st["fired"] >= times or not os.path.isfile(src):
                     return real(src, dst, *a, **kw)
                 st["fired"] += 1
                 if os.path.isdir(dst):
@@ -153,7 +159,7 @@ class _torn_copies:
                 self.f = f
 
             def write(self, data):
-                if st["fired"]:
+                if st["fired"] >= times:
                     return self.f.write(data)
                 st["fired"] += 1
                 self.f.write(data[: int(len(data) * cut)])
@@ -172,7 +178,7 @@ class _torn_copies:
 
         def opener(file, mode="r", *a, **kw):
             f = real_open(file, mode, *a, **kw)
-            if not st["fired"] and isinstance(file, str) and any(c in mode for c in "wax") and os.sep + "named_files" + os.sep in os.path.abspath(file) and not file.endswith(".json"):
+            if st["fired"] < times and isinstance(file, str) and any(c in mode for c in "wax") and os.sep + "named_files" + os.sep in os.path.abspath(file) and not file.endswith(".json"):
                 return Torn(f)
             return f
 
@@ -290,7 +296,7 @@ def _manifest(name):
 def execute(sc):
     out = Out()
     seams.reset(sc["seed"], listdir_salt=sc.get("listdir_salt"))
-    with W.World(log_level=sc.get("log", "error")) as w:
+    with W.World(log_level=sc.get("log", "error"), inputs_prefix=sc.get("inputs_prefix", "")) as w:
         cs = ops.new_csvpaths()
         cs_alt = None
         age = 0
@@ -390,7 +396,7 @@ def execute(sc):
                 base = op["src"].split("/")[-1]
                 sp = os.path.join("src", op["src"])
                 raised = None
-                with _torn_copies(op["cut"]) as torn:
+                with _torn_copies(op["cut"], op.get("times", 1)) as torn:
                     try:
                         with ops.quiet():
                             cs.file_manager.add_named_file(name=op["name"], path=sp)
